@@ -1646,4 +1646,162 @@ theorem ti_dispatchOp (w : W) (id key hash : Nat) (ttl : Option Nat) (acc : Bool
       have : s ∈ startedIds w.env.log k := by rw [← hlogS]; exact hs
       exact Nat.lt_of_lt_of_le (hso.sb k s this) (by omega)
 
+
+theorem mbox_die_sublist (e : Env) (aid b : Nat) : (mbox (e.die aid) b).Sublist (mbox e b) := by
+  by_cases hb : b = aid
+  · subst hb
+    by_cases hnoop : ∀ a, e.getActor b = some a → a.alive = false
+    · rw [die_noop e b hnoop]; exact List.Sublist.refl _
+    · have : ∃ a, e.getActor b = some a ∧ a.alive = true := by
+        apply Classical.byContradiction
+        intro hc
+        apply hnoop
+        intro a ha
+        cases hx : a.alive with
+        | false => rfl
+        | true => exact absurd ⟨a, ha, hx⟩ hc
+      obtain ⟨a, g, hal⟩ := this
+      obtain ⟨_, _, a', g', hd', _⟩ := die_spec e b a g hal
+      have : mbox (e.die b) b = [] := by unfold mbox; rw [g']; simp [hd']
+      rw [this]; exact List.nil_sublist _
+  · rw [mbox_die_other e aid b hb]; exact List.Sublist.refl _
+
+theorem so_die (w : W) (aid : Nat) (h : SO lo w) : SO lo ({ w with env := w.env.die aid } : W) := by
+  have hS : startedIds (w.env.die aid).log = startedIds w.env.log := by
+    funext k; exact startedIds_of_starts (sameE_die w.env aid) k
+  refine ⟨?_, h.i, ?_, ?_, ?_, ?_⟩
+  · show OrdW _ (startedIds (w.env.die aid).log) _
+    rw [hS]
+    refine h.ord.sub (List.Sublist.refl _) ?_
+    intro q hq
+    exact ⟨q, hq, List.Sublist.append (mbox_die_sublist _ _ _) (List.Sublist.refl _)⟩
+  · intro x hx s hs
+    simp only at hs
+    rw [hS] at hs
+    exact h.si x hx s hs
+  · intro k; show (startedIds (w.env.die aid).log k).Pairwise _; rw [hS]; exact h.inc k
+  · intro i hi
+    have : total i ({ w with env := w.env.die aid } : W) = total i w := by simp only [total, cEnv_die]
+    rw [this]; exact h.z i hi
+  · intro k s hs
+    simp only at hs
+    rw [hS] at hs
+    exact h.sb k s hs
+
+theorem so_emit (w : W) (ev : Ev) (hev : isStart ev = false) (hterm : ∀ i, isTerm i ev = false) (h : SO lo w) : SO lo (w.emit ev) :=
+  h.same rfl rfl (fun _ => rfl) (sameE_emit w.env ev hev) rfl (fun i => total_emit i w ev (hterm i))
+
+theorem ti_emit (w : W) (ev : Ev) (hev : isStart ev = false) (hterm : ∀ i, isTerm i ev = false) (h : TI lo w) : TI lo (w.emit ev) :=
+  h.frame rfl rfl rfl rfl rfl rfl rfl (envEq_emit _ _) (sameE_emit w.env ev hev) rfl (fun i => total_emit i w ev (hterm i))
+
+theorem ti_finish (w : W) (aid : Nat) (ok : Bool) (h : TI lo w) : TI lo (w.finish aid ok) := by
+  refine ⟨ki_finish w aid ok h.ki, j_finish w aid ok h.j, affInv_finish w aid ok h.aff, ?_⟩
+  have hstp : (w.finish aid ok).stopped = w.stopped := by
+    unfold W.finish
+    cases g : w.env.getActor aid with
+    | none => rfl
+    | some a =>
+      simp only
+      cases hr : a.running with
+      | none => rfl
+      | some j =>
+        simp only
+        split
+        · rfl
+        · split
+          · rfl
+          · simp only; unfold W.send; split <;> rfl
+  by_cases hst : w.stopped = true
+  · left; rw [hstp]; exact hst
+  · have hst' : w.stopped = false := by simpa using hst
+    have hso : SO lo w := by
+      rcases h.so with hs | hs
+      · exact absurd hs hst
+      · exact hs
+    have hc := h.j.core hst'
+    right
+    generalize hfw : w.finish aid ok = wf
+    have hzf : ∀ i, total i wf = total i w := fun i => by rw [← hfw]; exact total_finish i w aid ok
+    unfold W.finish at hfw
+    cases g : w.env.getActor aid with
+    | none => simp only [g] at hfw; subst hfw; exact hso
+    | some a =>
+      simp only [g] at hfw
+      cases hr : a.running with
+      | none => simp only [hr] at hfw; subst hfw; exact hso
+      | some j =>
+        simp only [hr] at hfw
+        by_cases hal0 : (!a.alive) = true
+        · rw [if_pos hal0] at hfw; subst hfw; exact hso
+        · rw [if_neg hal0] at hfw
+          have hal : a.alive = true := by simpa using hal0
+          cases ok with
+          | false =>
+            -- the worker fails
+            simp only [Bool.not_false, if_true] at hfw
+            subst hfw
+            have h1 : SO lo (w.emit (.died aid)) := so_emit w _ rfl (fun _ => rfl) hso
+            exact so_die (w.emit (.died aid)) aid h1
+          | true =>
+            -- the worker returns Ok: its mailbox is empty (one job at a time), its own task has nothing to take
+            simp only [Bool.not_true, Bool.false_eq_true, if_false] at hfw
+            have hheld : a.heldJobs = j :: a.mailbox := by simp only [Actor.heldJobs, hr, List.cons_append, List.nil_append]
+            obtain ⟨h1, p, hp, hpa, _, _, _⟩ := hc.held_booked g hal (j := j) (by rw [hheld]; exact List.mem_cons_self ..)
+            have hmb : a.mailbox = [] := by rw [hheld] at h1; simpa using h1
+            obtain ⟨x, gx, _, hxa, _⟩ := hc.sa p hp
+            rw [hpa, g] at gx; cases gx
+            have hstop := (hxa hal).1
+            have haid := getActor_aid g
+            unfold W.send at hfw
+            simp only [hst', Bool.false_eq_true, if_false] at hfw
+            generalize ha' : ({ a with running := none } : Actor) = a' at hfw
+            have haid' : a'.aid = aid := by subst ha'; exact haid
+            generalize he1 : (w.env.emit (.finishOk aid)).emit (.handled aid j.id) = e1 at hfw
+            have ge1 : e1.getActor a'.aid = some a := by subst he1; rw [haid']; exact g
+            have gs := getActor_setActor_self e1 a a' ge1
+            rw [haid'] at gs
+            have hsettle : (e1.setActor a').settleOne aid = e1.setActor a' := by
+              unfold Env.settleOne
+              rw [gs]
+              have h1' : a'.alive = true := by subst ha'; exact hal
+              have h2' : a'.running = none := by subst ha'; rfl
+              have h3' : a'.stopReq = false := by subst ha'; exact hstop
+              have h4' : a'.mailbox = [] := by subst ha'; exact hmb
+              simp [h1', h2', h3', h4']
+            rw [hsettle] at hfw
+            subst hfw
+            have hmbx : ∀ b, mbox (e1.setActor a') b = mbox w.env b := by
+              intro b
+              by_cases hb : b = aid
+              · subst hb
+                unfold mbox
+                rw [gs, g]
+                subst ha'; rfl
+              · unfold mbox
+                rw [getActor_setActor_other e1 a' b (by rw [haid']; exact hb)]
+                subst he1; rfl
+            have hlog : startsOf (e1.setActor a').log = startsOf w.env.log := by
+              show startsOf e1.log = _
+              subst he1
+              exact (sameE_emit w.env _ rfl).trans (sameE_emit (w.env.emit (.finishOk aid)) _ rfl)
+            have hS : startedIds (e1.setActor a').log = startedIds w.env.log := by
+              funext k; exact startedIds_of_starts hlog k
+            have hI : inboxJobs (w.inbox ++ [FMsg.finished a.wid j.key]) = inboxJobs w.inbox := by
+              rw [inboxJobs_append]; simp [inboxJobs]
+            refine ⟨?_, ?_, ?_, ?_, fun i hi => by rw [hzf]; exact hso.z i hi, ?_⟩
+            · show OrdW (inboxJobs (w.inbox ++ [FMsg.finished a.wid j.key])) (startedIds (e1.setActor a').log) _
+              rw [hI, hS]; exact hso.ord.of_eq rfl rfl hmbx
+            · show (inboxJobs (w.inbox ++ [FMsg.finished a.wid j.key])).Pairwise KO
+              rw [hI]; exact hso.i
+            · intro x hx s hs
+              simp only at hx hs
+              rw [hI] at hx
+              rw [hS] at hs
+              exact hso.si x hx s hs
+            · intro k; show (startedIds (e1.setActor a').log k).Pairwise _; rw [hS]; exact hso.inc k
+            · intro k s hs
+              simp only at hs
+              rw [hS] at hs
+              exact hso.sb k s hs
+
 end Factory
